@@ -254,8 +254,8 @@ class CheckC10(core.Check):
                         c.op("set_psk", p, loc=loc, key="gen:%d:k" % ln if ln else "-")
             c.op("pingpong", a="A", b="B", max=6, plen=2)
         elif which == 1:
-            c.op("to_transport", "A")
-            c.op("to_stateless", "B")
+            c.op("to_transport", "A", flags=("tf",) if rnd.random() < 0.5 else ())
+            c.op("to_stateless", "B", flags=("tf",) if rnd.random() < 0.5 else ())
             for p in ("A", "B"):
                 c.op("t_write", p, pay="00", buf=100)
                 c.op("st_write", p, n=0, pay="00", buf=100)
